@@ -100,6 +100,14 @@ def grid():
 # --------------------------------------------------------------------------- Local fault injection
 
 
+class _Runaway(BaseException):
+    """Raised by the fault injectors after RUNAWAY attempts against a fault that never goes away: the retry loop under test
+    has no bound (a BaseException, so that no retry decorator swallows it)."""
+
+
+RUNAWAY = 400
+
+
 class _Plan:
     def __init__(self, prim, r, after):
         self.prim, self.left, self.after = prim, r, after
@@ -110,6 +118,8 @@ class _Plan:
         if prim != self.prim:
             return
         self.calls += 1
+        if self.calls > RUNAWAY:
+            raise _Runaway()
         if self.left > 0:
             self.left -= 1
             self.hits += 1
@@ -324,6 +334,8 @@ def _run(case, work, loop):
                 if not is_target:
                     return None
                 attempts[0] += 1
+                if attempts[0] > RUNAWAY:
+                    raise _Runaway()
                 if left[0] > 0:
                     left[0] -= 1
                     return make_fault()
@@ -335,6 +347,8 @@ def _run(case, work, loop):
                 if kind_ != want:
                     return None
                 attempts[0] += 1
+                if attempts[0] > RUNAWAY:
+                    raise _Runaway()
                 if left[0] > 0:
                     left[0] -= 1
                     return make_fault()
@@ -439,6 +453,8 @@ def _run(case, work, loop):
         # the local listing is a generator: the retry decorator cannot re-run it, so a fault may surface as an
         # error (bounded); what it must never do is return a wrong listing
         must_succeed = False
+    if isinstance(exc, _Runaway):
+        return Outcome(fail('unbounded', f'{bk}.{op}: still retrying after {RUNAWAY} attempts against a persistent fault'), classes, nontrivial)
     if isinstance(exc, RecursionError):
         return Outcome(fail('unbounded', f'{bk}.{op}: persistent fault ended in RecursionError after {seen} attempts'), classes, nontrivial)
     if exc is not None and not isinstance(exc, Exception):
